@@ -109,6 +109,39 @@ func c17(args []string) error {
 		tr.Emit(ev)
 	}
 
+	// ---- first increments of a key nobody has used yet, from several goroutines at once
+	{
+		K, FG := 400*R, 8
+		before := stats.HTTPReturnCodesTotalsForVerif()
+		for k := 0; k < K; k++ {
+			key := fmt.Sprintf("9%05d", k)
+			start := make(chan struct{})
+			var wg sync.WaitGroup
+			for g := 0; g < FG; g++ {
+				wg.Add(1)
+				go func() {
+					defer wg.Done()
+					<-start
+					stats.HTTPReturnCodesIncr(key)
+				}()
+			}
+			close(start)
+			wg.Wait()
+		}
+		after := stats.HTTPReturnCodesTotalsForVerif()
+		var got uint64
+		short := 0
+		for k := 0; k < K; k++ {
+			key := fmt.Sprintf("9%05d", k)
+			n := after[key] - before[key]
+			got += n
+			if n != uint64(FG) {
+				short++
+			}
+		}
+		tr.Emit(map[string]any{"ev": "fresh.read", "keys": K, "g": FG, "expected": K * FG, "got": got, "short": short})
+	}
+
 	// ---- means racing with resets
 	means := []struct {
 		name  string
